@@ -21,29 +21,35 @@ LABELS = "-abc"
 def ops_for(labels, n, cfg, salt):
     """op list for one labelled cutting of n batches"""
     rng = random.Random(derive_seed("c05-cut", salt, labels))
-    ops = []
-    seg = 0
     sizes = [s["batch_size"] for s in cfg["lineup"]]
     E = cfg["ensemble"]  # noqa: N806
+    # segments: (number of batches, label of the boundary that ends it, index of the first batch after it)
+    segs = []
+    seg = 0
     for i in range(1, n + 1):
         seg += 1
         lab = labels[i - 1] if i <= n - 1 else "end"
-        if lab == "-":
-            continue
-        ops.append(["calibrate", seg])
-        seg = 0
+        if lab != "-":
+            segs.append((seg, lab, i))
+            seg = 0
+    ops = []
+    prev = None
+    for length, lab, nxt in segs:
+        if prev == "d":
+            # the whole segment is run by a brand-new interpreter (which then dies too); we restore what it left
+            ops.append(["fresh_continue", length])
+        else:
+            ops.append(["calibrate", length])
         if lab == "b":
             ops.append(["crash"])
             ops.append(["restore"])
-        elif lab == "d":
-            # like 'b', but the next batch is run by a brand-new interpreter, which then dies too
-            ops.append(["crash"])
-            ops.append(["fresh_continue", 1])
-            seg = -1          # the fresh interpreter already ran one batch of the next segment
         elif lab == "c":
-            nxt_bs = sizes[i % len(sizes)]       # batch i (0-based) is the next one
+            nxt_bs = sizes[nxt % len(sizes)]       # batch `nxt` (0-based) is the next one
             ops.append(["calibrate_crash", 1, rng.randrange(nxt_bs * E)])
             ops.append(["restore"])
+        elif lab == "d":
+            ops.append(["crash"])
+        prev = lab
     return ops
 
 
@@ -63,7 +69,7 @@ class C05(Check):
     thorough = {"runs": 3000, "wall": 900, "item_timeout": 1200}
 
     def gen(self, rng, tier, i):
-        cfg = calsim.gen_config(rng, rl_prob=0.0, max_bs=3)
+        cfg = calsim.gen_config(rng, rl_prob=0.0, max_bs=3, feature=calsim.SAMPLER_KINDS[i % len(calsim.SAMPLER_KINDS)])
         cfg["ensemble"] = rng.randint(1, 2)
         cfg["N"] = 12
         if cfg["sim_length"] is not None:
@@ -81,8 +87,19 @@ class C05(Check):
             mode = "all"
         scn = {"engine": "calsim", "config": cfg, "env": {"folder": True, "n_jobs": rng.choice([1, 1, 2])}, "n": n, "mode": mode,
                "cut_seed": rng.randrange(2 ** 31), "sim_seed": rng.randrange(2 ** 31), "ops": []}
-        if scn["env"]["n_jobs"] == 1 and rng.random() < 0.15:
+        feat = calsim.SAMPLER_KINDS[i % len(calsim.SAMPLER_KINDS)]
+        if scn["env"]["n_jobs"] == 1 and (feat in ("halton", "rseq", "pso", "cors", "gp") or rng.random() < 0.2):
             scn["fresh"] = True
+            if feat in ("halton", "rseq", "pso", "cors", "gp") and mode == "all":
+                # short line-up so that the featured stateful sampler gets a second turn inside the run: its state then has
+                # to survive a pickle written by one interpreter and read by another
+                keep = [s for s in cfg["lineup"] if s["cls"] == feat][:1]
+                first = cfg["lineup"][0] if cfg["lineup"][0]["cls"] != feat else calsim.gen_sampler_spec(rng, rng.choice(["uniform", "rseq", "halton"]), 2)
+                first["batch_size"] = max(first["batch_size"], max([s["batch_size"] for s in keep] + [1]))
+                cfg["lineup"] = [first] + keep
+                if len(cfg["space"]["precision"]) < 2:
+                    cfg["space"] = calsim.gen_space(rng, rng.randint(2, 4))
+                scn["n"] = 4 if feat not in ("cors", "gp") else 3
         return scn
 
     def labellings(self, scn):
@@ -93,9 +110,10 @@ class C05(Check):
         if scn.get("fresh"):
             # a few cuttings in which the continuation runs in a brand-new interpreter ('d')
             frng = random.Random(scn["cut_seed"] + 1)
-            for _ in range(2):
-                extra.append("".join(frng.choice("d-bd") for _ in range(n - 1)))
-            extra = [x for x in extra if "d" in x] or ["d" * (n - 1)]
+            extra.append("d" * (n - 1))          # every later batch is run by its own brand-new interpreter
+            x = "".join(frng.choice("d-bd") for _ in range(n - 1))
+            if "d" in x and x not in extra:
+                extra.append(x)
         if scn["mode"] == "all":
             return ["".join(p) for p in itertools.product(LABELS, repeat=n - 1)] + extra
         rng = random.Random(scn["cut_seed"])
